@@ -93,8 +93,16 @@ ALL = [f"C{i:02d}" for i in range(1, 21)]
 
 
 def main():
+    # refreshed claims (final reports of the engineers) override the table above
+    ov = os.path.join(VERIF, "tools", "claims.json")
+    if os.path.exists(ov):
+        for pid, c in json.load(open(ov)).items():
+            CLAIMS[pid] = (c["technique"], c["text"], c["note"], f"Part I, I.4 ({pid}) and I.0 table")
+    for pid in list(CLAIMS):
+        t = CLAIMS[pid]
+        CLAIMS[pid] = (t[0], t[1], t[2], f"Part I, I.4 ({pid}); Part II section {t[3]}" if not t[3].startswith("Part I") else t[3])
     checks = []
-    for pid, (tech, text, note, ref) in CLAIMS.items():
+    for pid, (tech, text, note, ref) in sorted(CLAIMS.items()):
         checks.append({
             "property_id": pid,
             "quick_cmd": f"./check {pid} quick",
